@@ -1,6 +1,8 @@
 package nfs
 
 import (
+	"time"
+
 	"github.com/goose-lang/primitive/disk"
 
 	"github.com/mit-pdos/go-journal/buf"
@@ -10,6 +12,7 @@ import (
 	"github.com/mit-pdos/go-nfsd/dir"
 	"github.com/mit-pdos/go-nfsd/fstxn"
 	"github.com/mit-pdos/go-nfsd/inode"
+	"github.com/mit-pdos/go-nfsd/nfstypes"
 	"github.com/mit-pdos/go-nfsd/shrinker"
 	"github.com/mit-pdos/go-nfsd/super"
 	"github.com/mit-pdos/go-nfsd/util/stats"
@@ -22,6 +25,9 @@ type Nfs struct {
 	Unstable bool
 	// statistics
 	stats [NUM_NFS_OPS]stats.Op
+	// write verifier: changes whenever the server is (re)started, so that a client
+	// can tell that unstable data may have been lost
+	verf nfstypes.Writeverf3
 }
 
 func MakeNfs(d disk.Disk) *Nfs {
@@ -47,6 +53,10 @@ func MakeNfs(d disk.Disk) *Nfs {
 	}
 	if i.Kind == 0 {
 		nfs.makeRootDir()
+	}
+	boot := uint64(time.Now().UnixNano())
+	for j := 0; j < len(nfs.verf); j++ {
+		nfs.verf[j] = byte(boot >> (8 * uint(j)))
 	}
 	return nfs
 }
